@@ -6,13 +6,24 @@
    - C19_sumcheck_sound_core: if it accepts a claim other than the true sum, then in some round the
      prover's polynomial differs from the honest one and nevertheless agrees with it at that round's
      challenge (a root of a non-zero polynomial of bounded degree was hit).
-   Named residue: the degree bound + Schwartz-Zippel step, the Fiat-Shamir derivation of the challenges
-   (C15 transcript), and the GKR layering (per-wire claims, eq-polynomial) — decided on the real gadget by
-   the harness: exported values vs direct evaluation for seeded topologies, instances and dependency
-   patterns; forged exported values, forged proof elements and a self-consistent run on other inputs
-   are rejected; InterpolateLDE vs the executable Gallina interpolation. *)
+   Theorems (Std/Gkr.v, any field, any circuit in topological order, any gates):
+   - C19_lagrange_nodes: InterpolateLDE from the values at 0..d returns the k-th value at k when 0..d are
+     distinct in the field, hence every round polynomial of verifySumcheck satisfies p(0)+p(1) = claim;
+   - C19_mle_on_hypercube: the multilinear extension agrees with the table on the hypercube;
+   - C19_gkr_claims_true: if all per-wire checks of the GKR verifier pass and no lucky event occurs, every
+     claim the verifier handled is true of the direct evaluation of the circuit;
+   - C19_gkr_exec_sound: if the executable verifier accepts (and no lucky event occurs), the claimed
+     output tables and the direct evaluation have the same multilinear extension at the first challenge.
+   Named residue: the lucky events (Schwartz-Zippel: probability <= degree/|F| each) and the Fiat-Shamir
+   derivation of the challenges (C15 transcript); solving / exporting with dependencies (compile.go) —
+   decided on the real gadget by the harness: exported values vs direct evaluation for seeded topologies,
+   instances and dependency patterns; forged exported values, forged proof elements and a self-consistent
+   run on other inputs are rejected.
+   Tie: the executable verifier model is evaluated in Coq on the circuit / assignment / proof / challenges
+   the real in-circuit verifier was observed to use (honest and forged), and must reproduce the outcome of
+   every assertion; InterpolateLDE vs the executable Gallina interpolation. *)
 From Coq Require Import Field List.
-From GnarkV Require Import Std.Sumcheck.
+From GnarkV Require Import Std.Sumcheck Std.Gkr.
 Import ListNotations.
 
 Section C19.
@@ -29,7 +40,47 @@ Theorem C19_sumcheck_sound_core : forall n (g : list F -> F) claim hs rs,
   verify F zero one add n g claim hs rs -> claim <> hsum F zero one add n g ->
   lucky_round F zero one add n g hs rs.
 Proof. exact (sumcheck_sound_core F zero one add eq_dec). Qed.
+
+Theorem C19_lagrange_nodes : forall d,
+  (forall i j, i <= d -> j <= d -> i <> j -> fnat F zero one add i <> fnat F zero one add j) ->
+  forall vals k, length vals = S d -> k <= d ->
+  lde F zero one add mul sub inv vals (fnat F zero one add k) = nth k vals zero.
+Proof. exact (lde_node F zero one add mul sub opp div inv Fth). Qed.
+
+Theorem C19_mle_on_hypercube : forall n (W : list F -> F) b,
+  boolpt F zero one n b -> mle F zero one add mul sub n W b = W b.
+Proof. exact (mle_bool F zero one add mul sub opp div inv Fth). Qed.
+
+Variable G : Type.
+Variable gate_eval : G -> list F -> F.
+Variable gate_deg : G -> nat.
+Variable n : nat.
+Variable asg : nat -> list F -> F.
+
+Theorem C19_gkr_claims_true : forall (ws : list (wire G)) (Rs : list (wrun F)) (V : nat -> list F -> F),
+  sorted_b G ws = true ->
+  consistent F zero one G gate_eval n asg ws V ->
+  char_ok F zero one add G gate_deg ws ->
+  accept_all F zero one add mul sub inv eq_dec G gate_eval gate_deg n asg ws Rs = true ->
+  closure_b F zero eq_dec G ws Rs = true ->
+  no_luck F zero one add mul sub inv G gate_eval n asg ws Rs V ->
+  forall i w R, nth_error ws i = Some w -> nth_error Rs i = Some R ->
+  forall cl, In cl (r_claims F R) -> snd cl = mle F zero one add mul sub n (V i) (fst cl).
+Proof. exact (gkr_claims_true F zero one add mul sub opp div inv Fth eq_dec G gate_eval gate_deg n asg). Qed.
+
+Theorem C19_gkr_exec_sound : forall (ws : list (wire G)) rho proofs chals (V : nat -> list F -> F),
+  gkr_exec F zero one add mul sub inv eq_dec G gate_eval gate_deg n asg ws rho proofs chals = true ->
+  consistent F zero one G gate_eval n asg ws V ->
+  char_ok F zero one add G gate_deg ws ->
+  no_luck F zero one add mul sub inv G gate_eval n asg ws (build_runs F zero one add mul sub G n asg ws rho proofs chals) V ->
+  forall i w, nth_error ws i = Some w -> is_output G ws i = true ->
+  mle F zero one add mul sub n (asg i) rho = mle F zero one add mul sub n (V i) rho.
+Proof. exact (gkr_exec_sound F zero one add mul sub opp div inv Fth eq_dec G gate_eval gate_deg n asg). Qed.
 End C19.
 
 Print Assumptions C19_sumcheck_complete.
 Print Assumptions C19_sumcheck_sound_core.
+Print Assumptions C19_lagrange_nodes.
+Print Assumptions C19_mle_on_hypercube.
+Print Assumptions C19_gkr_claims_true.
+Print Assumptions C19_gkr_exec_sound.
